@@ -12,6 +12,8 @@ import (
 	"sync"
 	"syscall"
 	"time"
+
+	"github.com/segmentio/kafka-go/zzverif/vhook"
 )
 
 type Addr struct{ S string }
@@ -34,6 +36,8 @@ type half struct {
 	read     int // bytes ever delivered
 	journal  []byte
 	keep     bool
+	gated    bool // bytes become readable only when released
+	released int  // bytes released beyond those already delivered
 }
 
 func newHalf() *half {
@@ -48,6 +52,7 @@ type Conn struct {
 	ID            int
 	once          sync.Once
 	OnClose       func()
+	PointOnWrite  bool
 	closed        bool
 }
 
@@ -83,8 +88,14 @@ func (c *Conn) Read(p []byte) (int, error) {
 		if len(p) == 0 {
 			return 0, nil
 		}
-		if len(h.buf) > 0 && h.limit != 0 {
+		if len(h.buf) > 0 && h.limit != 0 && (!h.gated || h.released > 0) {
+			if h.gated && len(p) > h.released {
+				p = p[:h.released]
+			}
 			n := copy(p, h.buf)
+			if h.gated {
+				h.released -= n
+			}
 			if h.limit > 0 && n > h.limit {
 				n = h.limit
 			}
@@ -106,6 +117,10 @@ func (c *Conn) Read(p []byte) (int, error) {
 }
 
 func (c *Conn) Write(p []byte) (int, error) {
+	if c.PointOnWrite {
+		// a writer can be descheduled in the middle of a network write
+		vhook.Point(vhook.KUser, c)
+	}
 	h := c.out
 	h.mu.Lock()
 	defer h.mu.Unlock()
@@ -180,6 +195,34 @@ func (c *Conn) LimitPeerReadsAfter(extra int) {
 	c.out.limit = len(c.out.buf) + extra
 	c.out.cond.Broadcast()
 	c.out.mu.Unlock()
+}
+
+// Gate makes what this end writes readable by the peer only when released.
+func (c *Conn) Gate() {
+	c.out.mu.Lock()
+	c.out.gated = true
+	c.out.mu.Unlock()
+}
+
+// Release lets the peer read n more bytes (n < 0: everything buffered now).
+func (c *Conn) Release(n int) {
+	c.out.mu.Lock()
+	if n < 0 || n > len(c.out.buf)-c.out.released {
+		n = len(c.out.buf) - c.out.released
+	}
+	c.out.released += n
+	c.out.cond.Broadcast()
+	c.out.mu.Unlock()
+}
+
+// Withheld is the number of bytes written but not yet released to the peer.
+func (c *Conn) Withheld() int {
+	c.out.mu.Lock()
+	defer c.out.mu.Unlock()
+	if !c.out.gated {
+		return 0
+	}
+	return len(c.out.buf) - c.out.released
 }
 
 // Unread is the number of bytes this end wrote that the peer has not consumed.
